@@ -128,6 +128,7 @@ def jobs(tier):
         mk('C09', 'fw/late', S.forward_chain(2, topo='chain', late=True)),
         mk('C09', 'fw/late_await', S.fw_late_await()),
         mk('C09', 'sequential_awaited_children_with_errors', S.sequential_awaited_children_with_errors(), witnesses=W),
+        mk('C09', 'three_same_names_read_bus', S.three_same_names_read_bus(), witnesses=W),
     ]
     if tier == 'thorough':
         out += [
